@@ -133,8 +133,13 @@ package hub
 //@ lib (u *websocket.Upgrader).Upgrade(w, r, responseHeader)
 //@   ensures result.1 == nil ==> result.0 != nil
 //@ iface io.ReadCloser.Close()
+// parsing is a function of the DER bytes: derParses(b) says whether b parses, derCert(b) names the parsed certificate
+//@ ufunc derParses(string) bool
+//@ ufunc derCert(string) ref
 //@ lib x509.ParseCertificate(der) pure
 //@   ensures result.1 == nil ==> result.0 != nil
+//@   ensures (result.1 == nil) == derParses(bytes(der))
+//@   ensures result.1 == nil ==> ref(result.0) == derCert(bytes(der))
 //@ lib slices.SortFunc(s, cmp)
 //@   modifies class("elems:net.IP")
 //@ lib sort.Slice(x, less)
@@ -145,7 +150,13 @@ package hub
 //@ lib time.Duration.String() pure
 
 // ---- peer identity on the accepting side ----
+// the TLS verification callback accepts a chain only if one of the presented certificates parses and carries a
+// 20-byte Subject Key Identifier (the form SkiFromCertificate accepts)
 //@ func (h *Hub).verifyPeerCertificate(rawCerts, verifiedChains) [C02,C08]
+//@   ensures [C02] V5-some-valid: result == nil ==> exists i: int :: 0 <= i && i < len(rawCerts) && derParses(bytes(rawCerts[i])) && len(cast(derCert(bytes(rawCerts[i])), x509.Certificate).SubjectKeyId) == 20
+//@   ensures [C02] V6-parse-error: (exists i: int :: 0 <= i && i < len(rawCerts) && !derParses(bytes(rawCerts[i])) && (forall j: int :: 0 <= j && j < i ==> derParses(bytes(rawCerts[j])) && len(cast(derCert(bytes(rawCerts[j])), x509.Certificate).SubjectKeyId) != 20)) ==> result != nil
+//@ loop (h *Hub).verifyPeerCertificate #0
+//@   invariant forall j: int :: 0 <= j && j <= rangeindex ==> derParses(bytes(rawCerts[j])) && len(cast(derCert(bytes(rawCerts[j])), x509.Certificate).SubjectKeyId) != 20
 //@ func (h *Hub).startWebsocketServer() [C02]
 //@   ensures [C02] V1-tls12: h.httpServer != nil && h.httpServer.TLSConfig != nil && h.httpServer.TLSConfig.MinVersion >= 771
 //@   ensures [C02] V2-clientcert: h.httpServer.TLSConfig.ClientAuth >= 2
@@ -159,13 +170,13 @@ package hub
 // crypto/tls hands over non-nil certificates (assumed)
 //@ func (h *Hub).ServeHTTP(w, r) entry [C02,C09,C08]
 //@   requires r != nil && (r.TLS != nil && len(r.TLS.PeerCertificates) > 0 ==> r.TLS.PeerCertificates[0] != nil)
-//@   atcall NewConnectionHandler [C02] I1-cert: r.TLS != nil && len(r.TLS.PeerCertificates) > 0 && @PEER() != nil && len(@PEER().SubjectKeyId) == 20
-//@   atcall NewConnectionHandler [C02] I2-ski: $4 == norm(hex(@PEER().SubjectKeyId))
+//@   atcall NewConnectionHandler [C02,C01] I1-cert: r.TLS != nil && len(r.TLS.PeerCertificates) > 0 && @PEER() != nil && len(@PEER().SubjectKeyId) == 20
+//@   atcall NewConnectionHandler [C02,C01] I2-ski: $4 == norm(hex(@PEER().SubjectKeyId))
 //@   atcall NewConnectionHandler [C02] I2-bound: $4 == norm(skiOfKey(@PEER()))
 //@   atcall NewConnectionHandler [C02] I3-role: $2 == ship.ShipRoleServer
 //@   atcall NewConnectionHandler [C02] I4-subprotocol: cast($1, ws.WebsocketConnection).conn.$subproto == api.ShipWebsocketSubProtocol
 //@   atcall NewConnectionHandler [C09] I5-shipid: $4 in h.remoteServices && $5 == h.remoteServices[$4].shipID && $3 == h.localService.shipID
-//@   atcall NewWebsocketConnection [C02] I6-transport: $1 == norm(hex(@PEER().SubjectKeyId))
+//@   atcall NewWebsocketConnection [C02,C01] I6-transport: $1 == norm(hex(@PEER().SubjectKeyId))
 //@   modifies *
 
 // ---- the dialling side ----
@@ -196,7 +207,7 @@ package hub
 //@   requires [C10] D5-running: !h.isShutdown
 //@   atcall Dial [C10] D1-dial: @GATE(remoteService)
 //@   atcall Dial [C10] D5-dial: !h.isShutdown
-//@   atcall NewConnectionHandler [C02] O1-ski: $4 == remoteService.ski && $4 == cast(cast($1, ws.WebsocketConnection).conn.$under, tls.Conn).$peerSkiHex && cast(cast($1, ws.WebsocketConnection).conn.$under, tls.Conn).$peerSkiLen == 20
+//@   atcall NewConnectionHandler [C02,C01] O1-ski: $4 == remoteService.ski && $4 == cast(cast($1, ws.WebsocketConnection).conn.$under, tls.Conn).$peerSkiHex && cast(cast($1, ws.WebsocketConnection).conn.$under, tls.Conn).$peerSkiLen == 20
 //@   atcall NewConnectionHandler [C02] O2-role: $2 == ship.ShipRoleClient
 //@   atcall NewConnectionHandler [C09] O3-shipid: $5 == remoteService.shipID && $3 == h.localService.shipID
 //@   ensures result != nil ==> @SAME(remoteService) && @HUBINV(h) && @REGISTERED(h, remoteService)
